@@ -14,7 +14,7 @@ func init() { props["C05"] = runC05 }
 // preceding token, e.g. `-` + `--c`), may contain comments of all kinds (nested block comments included) and
 // ends either in whitespace, a block comment or the newline that closes a line comment.
 var gapPool = []string{" ", "  ", "\t", "\n", "\r\n", " \n\t ", "\f", "\v", "   ", " \ufeff", " ", " /* c */ ", " /* a /* nested */ b */", "\n-- line comment\n", " -- select ; from\n",
-	" # hash comment\n", "\n#!shebang\n", " /**/ ", " /* ; */\n", "\t/* 'quote' \"dq\" `bt` */\t", " -- 'unterminated\n", " /* -- */ ", "\n\n\n", " /*\n multi\n line\n*/ "}
+	" # hash comment\n", "\n#!shebang\n", " /**/ ", " /* ; */\n", "\t/* 'quote' \"dq\" `bt` */\t", " -- 'unterminated\n", " /* -- */ ", "\n\n\n", " /*\n multi\n line\n*/ ", " /* see /*/ path */ glob */ ", " /*/*/ x */ */", " /* * / */ ", " /***/ ", " /*--*/ ", " --/*\n", " /* # */ "}
 
 func isSpaceRune(r rune) bool {
 	if unicode.IsSpace(r) {
